@@ -1,6 +1,11 @@
 (** M1 — the well-formedness invariant of the pool model (definitions only; preservation is proved
-    in PInvProofs.v).  Everything is stated for *clean* states: no [unlock()] was issued once a
-    [gather_and_close()] had been requested (precondition P-unlock, DESIGN.md §5). *)
+    in the PInv_*.v files, assembled in PWF.v).  Every clause is mirrored by an executable check in
+    ocaml/pwf.ml which is run on random model traces (a test of the statements, not a proof).
+
+    The invariant is stated for *clean* runs: no [unlock()] was issued once a [gather_and_close()]
+    had been requested (precondition P-unlock, DESIGN.md §5) — [gather_and_close] clears all
+    registries at its end, so unlocking the pool while it waits lets tasks be created that it
+    then forgets. *)
 From TP Require Export PModel.
 
 Definition clean (s : state) : Prop := taint_unlock s = false.
@@ -11,7 +16,10 @@ Definition regs (s : state) : list nat := t_running s ++ t_cancelled s ++ t_ende
 Record I1 (s : state) : Prop := {
   I1_nodup : NoDup (regs s);
   I1_lt : forall t, In t (regs s) -> t < num_started s;
-  I1_len : num_started s = length (ptasks s)
+  I1_len : num_started s = length (ptasks s);
+  (* every id ever issued is filed in exactly one registry unless it was forgotten by
+     flush() / gather_and_close() *)
+  I1_forgotten : num_started s = length (regs s) + n_forgotten s
 }.
 
 (** ** I2 — a pool task's program counter agrees with the registry it is filed in *)
@@ -33,16 +41,59 @@ Record I2 (s : state) : Prop := {
   I2_mc : forall t x, get_p s t = Some x -> p_pc x = PCreated -> p_mc x = false
 }.
 
+(** ** IH — per-task history counters (ghosts): how often the worker was started, each callback
+    was entered and the pool slot was released, as a function of the program counter.  These are
+    the exactly-once facts of C02 / C03. *)
+Definition has_cb (c : cbspec) : nat := match c with CbNone => 0 | _ => 1 end.
+
+Definition counts_ok (x : ptask) : Prop :=
+  p_nstart x <= 1 /\ p_nccb x <= has_cb (p_ccb x) /\ p_necb x <= has_cb (p_ecb x) /\
+  p_nrel x <= 1 /\
+  match p_pc x with
+  | PCreated => p_nstart x = 0 /\ p_nccb x = 0 /\ p_necb x = 0 /\ p_nrel x = 0
+  | PUStart | PWaitGate | PUResume | PUCancelled =>
+      p_nstart x = 1 /\ p_nccb x = 0 /\ p_necb x = 0 /\ p_nrel x = 0
+  | PUCancelCb | PWaitCcb => p_nccb x = 1 /\ p_necb x = 0 /\ p_nrel x = 0
+  | PUEndCb | PWaitEcb => p_necb x = 1 /\ p_nrel x = 1
+  | PDone => p_necb x = has_cb (p_ecb x) /\ p_nrel x = 1
+  end.
+
+Definition internal_exn (e : option exn) : Prop :=
+  e = Some EKeyError \/ e = Some EPoolIsClosed \/ e = Some EPoolIsLocked.
+
+(** No cancellation is pending on / delivered to a task that is inside its callbacks or in its
+    worker's final segment — unless a worker cancelled itself from a final segment (open finding
+    D11, ghost [taint_self]). *)
+Definition not_cancelled_late (x : ptask) : Prop :=
+  match p_pc x with
+  | PUCancelCb | PWaitCcb | PUEndCb | PWaitEcb | PUResume | PUCancelled =>
+      p_mc x = false /\ p_fw x <> Some FCancelled
+  | PDone => p_exc x <> Some ECancelled /\ p_final x <> Some OCancelled
+  | _ => True
+  end.
+
+Record IH (s : state) : Prop := {
+  IH_counts : forall t x, get_p s t = Some x -> counts_ok x;
+  IH_noint : forall t x, get_p s t = Some x -> ~ internal_exn (p_exc x);
+  IH_late : taint_self s = false -> forall t x, get_p s t = Some x -> not_cancelled_late x
+}.
+
 (** ** I3 — slot conservation: capacity = free slots + slots in use.
     [cap] is a ghost: the configured size, re-based by [pool_size = v] (which overwrites the free
     count, D6).  Slots in use: tasks filed as running or cancelled, plus slots already handed to a
-    woken waiter. *)
+    woken waiter ([in_use], PModel.v). *)
 Definition slots_ok (s : state) : Prop :=
   match sem_value s, cap s with
   | Fin v, Fin c => c = v + in_use s
   | Inf, Inf => True
   | _, _ => False
   end.
+
+Record I3 (s : state) : Prop := {
+  I3_slots : slots_ok s;
+  I3_cap : taint_size s = false -> cap s = cf_size (cfg s);
+  I3_inf : taint_size s = false -> sem_value s = Inf -> sem_waiters s = []
+}.
 
 (** ** I4 — the semaphore's waiter queue and the spawners *)
 Definition waiting_fut (f : option fut) : Prop :=
@@ -69,8 +120,17 @@ Definition p_waiting (p : ppc) : bool :=
 Definition p_user (p : ppc) : bool :=
   match p with PUStart | PUResume | PUCancelled | PUCancelCb | PUEndCb => true | _ => false end.
 
+Definition hid_in_range (s : state) (h : hid) : Prop :=
+  match h with
+  | HT (TP t) => t < length (ptasks s)
+  | HT (TM m) => m < length (mtasks s)
+  | HT (TD d) => d < length (dtasks s)
+  | HG d _ => d < length (dtasks s)
+  end.
+
 Record I5 (s : state) : Prop := {
   I5_nodup : NoDup (ready s);
+  I5_range : forall h, In h (ready s) -> hid_in_range s h;
   I5_p : forall t x, get_p s t = Some x ->
            (In (HT (TP t)) (ready s) <->
             (p_pc x = PCreated \/
@@ -94,23 +154,37 @@ Record I5 (s : state) : Prop := {
              ((d_pc x = DWaitG1 \/ d_pc x = DWaitG2 \/ d_pc x = DWaitClosed) /\
               d_fw x <> Some FPending)));
   I5_dfinal : forall d x, get_d s d = Some x -> (d_final x <> None <-> d_pc x = DDone);
-  I5_ctl_d : forall d, ctl s <> CUser (TD d)
+  I5_ctl_d : forall d, ctl s <> CUser (TD d);
+  I5_ctl_p : forall t, ctl s = CUser (TP t) -> t < length (ptasks s);
+  I5_ctl_m : forall m, ctl s = CUser (TM m) -> m < length (mtasks s)
 }.
 
-(** ** IM — every spawner that is not done is still registered (so that gather_and_close waits
-    for it) *)
-Definition meta_registered (s : state) (m : nat) : Prop :=
-  In m (meta_cancelled s) \/ exists g ms, In (g, ms) (gmeta s) /\ In m ms.
+(** ** IM — spawners.  A live spawner whose group was not cancelled is registered under its group
+    (so that gather_and_close waits for it); a spawner whose group was cancelled ([m_dead]) has a
+    cancellation pending or delivered and will stop at its next step (unless the cancellation came
+    from its own argument iterator, ghost [taint_iter]). *)
+Definition meta_in_group (s : state) (m : nat) (g : gname) : Prop :=
+  exists ms, glookup g (gmeta s) = Some ms /\ In m ms.
+
+Definition fut_cancelled (f : option fut) : Prop := f = Some FCancelled.
 
 Record IM (s : state) : Prop := {
-  IM_reg : forall m x, get_m s m = Some x -> m_final x = None -> meta_registered s m;
-  IM_lt : forall m, meta_registered s m -> m < length (mtasks s);
-  IM_nodup : NoDup (meta_cancelled s ++ concat (map snd (gmeta s)))
+  IM_reg : forall m x, get_m s m = Some x -> m_final x = None -> m_dead x = false ->
+                       meta_in_group s m (m_group x);
+  IM_lt : forall m, In m (meta_cancelled s ++ concat (map snd (gmeta s))) ->
+                    m < length (mtasks s);
+  IM_nodup : NoDup (meta_cancelled s ++ concat (map snd (gmeta s)));
+  IM_keys : NoDup (map fst (gmeta s));
+  IM_dead : taint_iter s = false ->
+            forall m x, get_m s m = Some x -> m_dead x = true -> m_final x = None ->
+                        m_mc x = true \/ fut_cancelled (m_fw x);
+  IM_holds : forall m x, get_m s m = Some x -> m_holds x = true -> m_pc x = MWaitPool
 }.
 
-(** ** IG — gathers.  For a driver suspended on a gather's outer future: the callbacks that have
-    run are counted by [g_nfin]; a child callback handle is ready only for a finished child; and a
-    gather_and_close driver past its first gather sees a locked pool with no live spawner. *)
+(** ** IG — gathers and drivers.  For a driver suspended on a gather's outer future: the
+    callbacks that have run are counted by [g_nfin]; a child callback handle is ready only for a
+    finished child; and a gather_and_close driver past its first gather sees a locked pool with
+    no live (uncancelled) spawner. *)
 Definition tref_done (s : state) (r : tref) : bool :=
   match tref_final s r with Some _ => true | None => false end.
 
@@ -137,22 +211,99 @@ Record IG (s : state) : Prop := {
   IG_ok2 : forall d x g, get_d s d = Some x -> d_pc x = DWaitG2 -> d_fw x = Some FOk ->
                          d_g2 x = Some g -> forall c, In c (g_children g) -> tref_done s c = true;
   IG_hg : forall d c, In (HG d c) (ready s) -> tref_done s c = true;
-  (* gather_and_close, waiting for the spawners: locked, and its children are all live spawners *)
+  (* gather_and_close, waiting for the spawners: locked, and its children include every live
+     spawner whose group was not cancelled *)
   IG_gac1 : forall d x re g, get_d s d = Some x -> d_kind x = DGatherClose re ->
                         d_pc x = DWaitG1 -> d_g1 x = Some g ->
                         locked s = true /\
-                        (forall m y, get_m s m = Some y -> m_final y = None ->
+                        (forall m y, get_m s m = Some y -> m_final y = None -> m_dead y = false ->
                                      In (TM m) (g_children g));
   IG_ngac : forall d x re, get_d s d = Some x -> d_kind x = DGatherClose re -> 0 < n_gac s;
-  (* gather_and_close, waiting for the tasks: locked, no live spawner, children = all tasks *)
+  (* gather_and_close, waiting for the tasks: locked, no live uncancelled spawner, children = all
+     tasks *)
   IG_gac2 : forall d x re, get_d s d = Some x -> d_kind x = DGatherClose re ->
                         d_pc x = DWaitG2 ->
                         locked s = true /\
-                        (forall m y, get_m s m = Some y -> m_final y <> None) /\
-                        (forall t, In t (regs s) -> In t (d_snap x))
+                        (forall m y, get_m s m = Some y -> m_final y = None -> m_dead y = true) /\
+                        (forall t, In t (regs s) -> In t (d_snap x));
+  IG_closed : closed s = true -> regs s = []
+}.
+
+(** ** IR — requests.  Every pool task was created for exactly one request and carries that
+    request's function behaviour, callbacks and (for the map family) element; a request never
+    creates more than it was asked for, skips exactly the invocations whose call raises, and ends
+    only when it is complete or its group was cancelled. *)
+Definition tasks_of (s : state) (m : nat) : nat :=
+  count (fun x => Nat.eqb (p_req x) m) (ptasks s).
+
+Definition unreleased_of (s : state) (m : nat) : nat :=
+  count (fun x => Nat.eqb (p_req x) m && Nat.eqb (p_nrel x) 0) (ptasks s).
+
+Definition task_matches_req (x : ptask) (y : mtask) : Prop :=
+  p_ecb x = m_ecb y /\ p_ccb x = m_ccb y /\ p_ismap x = is_map y /\ p_el x < m_idx y /\
+  match m_kind y with
+  | MMap _ => exists e, nth_error (m_els y) (p_el x) = Some e /\ e_bad e = false /\ p_w x = e_w e
+  | _ => p_w x = m_w y /\ m_bad y = false /\ p_el x < m_num y
+  end.
+
+Definition req_progress (s : state) (m : nat) (y : mtask) : Prop :=
+  match m_kind y with
+  | MMap _ => m_idx y <= length (m_els y) /\
+              m_ncreated y + count e_bad (firstn (m_idx y) (m_els y)) = m_idx y
+  | _ => m_idx y <= m_num y /\ m_ncreated y = (if m_bad y then 0 else m_idx y)
+  end.
+
+Definition req_final_ok (s : state) (y : mtask) : Prop :=
+  match m_final y with
+  | None => True
+  | Some OResult => m_dead y = true \/ taint_iter s = true \/
+                    match m_kind y with
+                    | MMap _ => m_idx y = length (m_els y)
+                    | _ => m_idx y = m_num y
+                    end
+  | Some OCancelled => m_dead y = true \/ taint_iter s = true
+  | Some (OExc _) => False
+  end.
+
+Definition b2n (b : bool) : nat := if b then 1 else 0.
+
+Definition mapsem_ok (s : state) (m : nat) (y : mtask) : Prop :=
+  match m_kind y with
+  | MMap _ =>
+      m_mapval y + b2n (m_holds y) + unreleased_of s m +
+      (match m_pc y, m_fw y with MWaitMap, Some FOk => 1 | _, _ => 0 end) = m_nc y
+  | _ => m_mapval y = 0 /\ m_holds y = false /\ m_nc y = 0
+  end.
+
+Record IR (s : state) : Prop := {
+  IR_req : forall t x, get_p s t = Some x ->
+                       exists y, get_m s (p_req x) = Some y /\ task_matches_req x y;
+  IR_distinct : forall t u x y, get_p s t = Some x -> get_p s u = Some y ->
+                                p_req x = p_req y -> p_el x = p_el y -> t = u;
+  IR_ncreated : forall m y, get_m s m = Some y -> m_ncreated y = tasks_of s m;
+  IR_progress : forall m y, get_m s m = Some y -> req_progress s m y;
+  IR_final : forall m y, get_m s m = Some y -> req_final_ok s y;
+  IR_mapsem : forall m y, get_m s m = Some y -> mapsem_ok s m y
+}.
+
+(** ** IGr — groups partition the tasks *)
+Record IGr (s : state) : Prop := {
+  IGr_keys : NoDup (map fst (groups s));
+  IGr_disj : NoDup (concat (map snd (groups s)));
+  IGr_lt : forall t, In t (concat (map snd (groups s))) -> t < num_started s;
+  IGr_ids : forall g ids t x, glookup g (groups s) = Some ids -> In t ids ->
+                              get_p s t = Some x -> p_group x = g;
+  (* a task is in the register of the group it was created for, unless that group was cancelled *)
+  IGr_member : forall t x y, get_p s t = Some x -> get_m s (p_req x) = Some y ->
+                             m_dead y = false ->
+                             p_group x = m_group y /\
+                             exists ids, glookup (m_group y) (groups s) = Some ids /\ In t ids;
+  IGr_live : forall m y, get_m s m = Some y -> m_final y = None -> m_dead y = false ->
+                         ghas (m_group y) (groups s) = true
 }.
 
 (** The invariant. *)
 Record WF (s : state) : Prop := {
-  wf1 : I1 s; wf2 : I2 s; wf3 : slots_ok s; wf4 : I4 s; wf5 : I5 s; wfm : IM s; wfg : IG s
+  wf1 : I1 s; wf2 : I2 s; wfh : IH s; wf3 : I3 s; wf4 : I4 s; wf5 : I5 s; wfm : IM s;
+  wfg : IG s; wfr : IR s; wfgr : IGr s
 }.
